@@ -122,6 +122,14 @@ static int line_to_instr(struct instr *instr_data, char *filtered_asm_str) {
       return EXIT_FAILURE;
     }
   }
+  // only a relative jump has a rel8 row after its rel32 row: `short` on
+  // anything else would advance the key to an unrelated instruction
+  if (instr_data->keyword.is_short &&
+      !(instr_data->imm && TYPE(instr_data->key, CONTROL_FLOW) &&
+        !NAME(instr_data->key, call))) {
+    fprintf(stderr, "assembyline: short is only valid for a relative jump\n");
+    return EXIT_FAILURE;
+  }
   // find the encoding for a short jump instruction if applicable
   instr_data->key += instr_data->keyword.is_short;
   // values will be determined during encoding
